@@ -486,4 +486,102 @@ theorem decSeq_rt (u : Bytes → Bool) (elt : CqlTy) (ih : RT u elt) :
     rw [ihs r rest (fun x hx => hw x (List.mem_cons_of_mem _ hx)) hr hl.2]
     rfl
 
+theorem wf_native_inv (u : Bytes → Bool) (n : NativeTy) (v : CqlVal) (h : wfVal u (.native n) v = true) :
+    v = .empty ∨ wfNative u n v = true := by
+  cases v <;> simp [wfVal] at h ⊢ <;> exact h
+
+theorem wf_list_inv (u : Bytes → Bool) (elt : CqlTy) (v : CqlVal) (h : wfVal u (.list elt) v = true) :
+    v = .empty ∨ ∃ vs, v = .list vs ∧ ∀ x, x ∈ vs → wfVal u elt x = true := by
+  cases v <;> simp [wfVal] at h ⊢
+  exact h
+
+theorem wf_set_inv (u : Bytes → Bool) (elt : CqlTy) (v : CqlVal) (h : wfVal u (.set elt) v = true) :
+    v = .empty ∨ ∃ vs, v = .set vs ∧ ∀ x, x ∈ vs → wfVal u elt x = true := by
+  cases v <;> simp [wfVal] at h ⊢
+  exact h
+
+theorem be32_append_ne_nil (n : Nat) (r : Bytes) : (be32 n ++ r).isEmpty = false := by
+  simp [be32, beBytes]
+
+theorem be32_append_ne_nil' (n : Nat) (r : Bytes) : be32 n ++ r ≠ [] := by
+  simp [be32, beBytes]
+
+/-- list / set: shared by both constructors (`mk` is `.list` or `.set`). -/
+theorem rt_seq (u : Bytes → Bool) (elt : CqlTy) (ih : RT u elt) (vs : List CqlVal) (body : Bytes)
+    (hall : ∀ x, x ∈ vs → wfVal u elt x = true)
+    (he : (if vs.length > i32Max then (.error .tooManyElements : Except SerErr Bytes)
+      else match concatEnc (fun v => encSpec elt v true) vs with
+        | .error e => .error e
+        | .ok cells => frame false (be32 vs.length ++ cells)) = .ok body)
+    (hlt : body.length < 2 ^ 64) :
+    (match readCount body with
+     | .error e => (.error e : Except DeErr (List CqlVal))
+     | .ok (n, rest) => decSeq (fun b => decVal u elt b) n rest) = .ok (vs.map (fun x => pad elt x)) ∧
+    body ≠ [] := by
+  split at he
+  · cases he
+  · rename_i hlen
+    cases hc : concatEnc (fun v => encSpec elt v true) vs with
+    | error e => rw [hc] at he; cases he
+    | ok cells =>
+      rw [hc] at he
+      simp only [frame] at he
+      cases he
+      refine ⟨?_, be32_append_ne_nil' _ _⟩
+      rw [readCount_be32 _ _ (by omega)]
+      simp only
+      have hl : cells.length < 2 ^ 64 := by simp only [List.length_append] at hlt; omega
+      have := decSeq_rt u elt ih vs cells [] hall hc hl
+      rw [List.append_nil] at this
+      exact this
+
+theorem pad_native_scalar (n : NativeTy) (v : CqlVal) (acc : List NativeTy) (b : Bytes) (viaB : Bool)
+    (h : viewOf v = .scalar acc b viaB) : pad (.native n) v = v := by
+  cases n <;> cases v <;> simp [viewOf] at h <;> simp [pad]
+
+theorem frame_false_ok (b body : Bytes) (viaB : Bool)
+    (h : (if viaB = true then frame false b else frameChecked false b) = .ok body) : body = b := by
+  cases viaB
+  · simp only [frameChecked] at h
+    split at h
+    · cases h
+    · simp at h; exact h.symm
+  · simp [frame] at h; exact h.symm
+
+mutual
+theorem rt (u : Bytes → Bool) : ∀ t : CqlTy, RT u t
+  | .native n => by
+    intro v body hw he hlt
+    rcases wf_native_inv u n v hw with rfl | hn
+    · exact rt_empty u _ body hw he
+    · obtain ⟨acc, b, viaB, hv, hacc, hdec, hz⟩ := native_rt u n v hn
+      rw [encSpec] at he
+      simp only [hv, encScalarSpec, hacc, if_true] at he
+      have hb := frame_false_ok b body viaB he
+      subst hb
+      rw [pad_native_scalar n v acc body viaB hv]
+      exact ⟨hdec, hz⟩
+  | .list elt => by
+    intro v body hw he hlt
+    rcases wf_list_inv u elt v hw with rfl | ⟨vs, rfl, hall⟩
+    · exact rt_empty u _ body hw he
+    · rw [encSpec] at he
+      simp only [viewOf] at he
+      obtain ⟨h1, h2⟩ := rt_seq u elt (rt u elt) vs body hall he hlt
+      refine ⟨?_, fun h => absurd h h2⟩
+      rw [decVal]
+      have : body.isEmpty = false := by cases body <;> simp at h2 ⊢
+      simp only [this, Bool.false_and]
+      simp only [pad]
+      revert h1
+      cases readCount body with
+      | error e => intro h1; cases h1
+      | ok r => obtain ⟨n, rest⟩ := r; intro h1; simp only at h1 ⊢; rw [h1]
+  | .set elt => by sorry
+  | .map kt vt => by sorry
+  | .tuple ts => by sorry
+  | .udt ks name fields => by sorry
+  | .vector elt dim => by sorry
+end
+
 end ScyllaVerif.Proofs.CodecDec
